@@ -67,6 +67,9 @@ func (c *Ctx) sliceElem(x Val, i Term) Val {
 	if x.Off == bvLit(64, 0) {
 		idx = i
 	}
+	for _, a := range x.Arr {
+		c.instantiateAt(a, i)
+	}
 	ls := make([]Term, len(x.Arr))
 	for k, a := range x.Arr {
 		ls[k] = app("select", a, idx)
@@ -127,6 +130,7 @@ func (c *Ctx) hasPrefixQ(s, p Val) Term {
 	if !c.faSeen["def:"+t] {
 		c.faSeen["def:"+t] = true
 		k := c.fresh("k")
+		c.bound[k] = true
 		c.hasQ = true
 		body := imp(and(app("bvsle", bvLit(64, 0), k), app("bvslt", k, p.Len)),
 			eq(c.sliceElem(s, k).T, c.sliceElem(p, k).T))
@@ -306,7 +310,7 @@ func symName(s string) string {
 // For element sorts without a literal zero (arrays) an unconstrained array is
 // used instead (cvc5 rejects non-value arguments of `as const`).
 func (c *Ctx) constArr(s string) Term {
-	if strings.HasPrefix(s, "(Array") {
+	if strings.HasPrefix(s, "(Array") || s == SIface || s == SKey {
 		return c.declConst(c.fresh("arr0"), arrSort(bvSort(64), s))
 	}
 	return fmt.Sprintf("((as const %s) %s)", arrSort(bvSort(64), s), c.zeroOfSort(s))
